@@ -150,6 +150,22 @@ class Mont:
             k >>= 1
         return R
 
+    def lin2(self, a, P, c, Q, PQ=None):
+        """a*P + c*Q by simultaneous double-and-add (Shamir); PQ = P + Q may be passed in"""
+        if PQ is None:
+            PQ = self.add(P, Q)
+        R = INF
+        for i in range(max(a.bit_length(), c.bit_length()) - 1, -1, -1):
+            R = self.add(R, R)
+            ba, bc = (a >> i) & 1, (c >> i) & 1
+            if ba and bc:
+                R = self.add(R, PQ)
+            elif ba:
+                R = self.add(R, P)
+            elif bc:
+                R = self.add(R, Q)
+        return R
+
     # x-only projective doubling (X:Z); returns (X, Z)
     def xdbl(self, XZ):
         F = self.F
